@@ -1574,8 +1574,26 @@ func (v *FnVC) backEdge(fr *frame, li *loopInfo, from *ssa.BasicBlock, st *State
 				}
 			}
 		}
+		nextOf := map[string]Val{}
+		{
+			bi := -1
+			for i, p := range h.Preds {
+				if p == from {
+					bi = i
+				}
+			}
+			for _, ins := range h.Instrs {
+				phi, ok := ins.(*ssa.Phi)
+				if !ok {
+					break
+				}
+				if phi.Comment != "" && bi >= 0 {
+					nextOf[phi.Comment] = v.value(fr, phi.Edges[bi])
+				}
+			}
+		}
 		for _, c := range v.con.Iterations[li.ordinal] {
-			env := &specEnv{v: v, fr: fr, st: st, old: li.headState, loop: li, over: ovHead}
+			env := &specEnv{v: v, fr: fr, st: st, old: li.headState, loop: li, over: ovHead, nextOf: nextOf}
 			t := env.evalBool(c.Expr)
 			o := v.addObl("ITER", fmt.Sprintf("loop%d:%s", li.ordinal, clauseName(c)), from.Instrs[len(from.Instrs)-1].Pos(), ec, t, c.Props, "")
 			o.Clause = c
